@@ -8,17 +8,17 @@ BE_DEF = ['-U__BYTE_ORDER__', '-D__BYTE_ORDER__=__ORDER_BIG_ENDIAN__']
 
 def build_bomon(work, cc='gcc', opt='-O2', hosted=False):
     inc = ['-I' + os.path.join(vlib.REPO, 'include'), '-I' + os.path.join(VERIF, 'mon')]
-    name = 'bomon_%s%s%s' % (cc, opt.replace('-', '_'), '_hosted' if hosted else '')
+    name = 'bomon_%s%s%s' % (cc, opt.replace('-', '_').replace(' ', '').replace('=', ''), '_hosted' if hosted else '')
     hdef = ['-DVP_HOSTED_FIRST'] if hosted else []
     d = work.path('obj_' + name)
     os.makedirs(d, exist_ok=True)
     wrap = os.path.join(VERIF, 'mon', 'bo_wrap.c')
     steps = [
-        [cc, '-std=gnu99', '-w', opt, '-g'] + inc + hdef + ['-DPFX=le_', '-c', wrap, '-o', d + '/le.o'],
-        [cc, '-std=gnu99', '-w', opt, '-g'] + inc + hdef + BE_DEF + ['-DPFX=be_', '-c', wrap, '-o', d + '/be.o'],
-        [cc, '-std=gnu99', '-w', opt, '-g'] + inc + ['-c', os.path.join(VERIF, 'mon', 'bomon.c'), '-o', d + '/bomon.o'],
-        [cc, '-std=gnu99', '-w', opt, '-g'] + inc + ['-c', os.path.join(VERIF, 'mon', 'vpcore.c'), '-o', d + '/vpcore.o'],
-        [cc, '-std=gnu99', '-w', opt, '-g'] + inc + ['-c', os.path.join(VERIF, 'mon', 'platform_native.c'), '-o', d + '/plat.o'],
+        [cc, '-std=gnu99', '-w'] + opt.split() + ['-g'] + inc + hdef + ['-DPFX=le_', '-c', wrap, '-o', d + '/le.o'],
+        [cc, '-std=gnu99', '-w'] + opt.split() + ['-g'] + inc + hdef + BE_DEF + ['-DPFX=be_', '-c', wrap, '-o', d + '/be.o'],
+        [cc, '-std=gnu99', '-w'] + opt.split() + ['-g'] + inc + ['-c', os.path.join(VERIF, 'mon', 'bomon.c'), '-o', d + '/bomon.o'],
+        [cc, '-std=gnu99', '-w'] + opt.split() + ['-g'] + inc + ['-c', os.path.join(VERIF, 'mon', 'vpcore.c'), '-o', d + '/vpcore.o'],
+        [cc, '-std=gnu99', '-w'] + opt.split() + ['-g'] + inc + ['-c', os.path.join(VERIF, 'mon', 'platform_native.c'), '-o', d + '/plat.o'],
     ]
     for s in steps:
         rc, so, se = vlib.run(s)
@@ -36,7 +36,8 @@ def c13(tier, seed):
     work = vlib.Work('C13')
     try:
         obs = vlib.Obs()
-        variants = [('gcc', '-O2', False), ('gcc', '-O0', False), ('clang', '-O2', False), ('gcc', '-O2', True), ('clang', '-O1', True)] + \
+        variants = [('gcc', '-O2', False), ('gcc', '-O0', False), ('clang', '-O2', False), ('gcc', '-O2', True), ('clang', '-O1', True),
+                    ('gcc', '-Os', False), ('clang', '-Oz', False), ('gcc', '-O3 -march=native', False), ('gcc', '-O2 -funsigned-char -DNDEBUG', False)] + \
             ([('clang', '-O0', False), ('gcc', '-O3', False), ('gcc', '-O0', True)] if tier == 'thorough' else [])
         bins = vlib.run_parallel(lambda v: build_bomon(work, v[0], v[1], v[2]), variants, workers=8)
         jobs = []
